@@ -22,17 +22,36 @@ _th = {}
 
 
 def required(tier):
-    return ['equal-activity', 'scale', 'top-chemical', 'history', 'history:use_cache', 'history:no-cache', 'history:T-decrease', 'sle:solute-only', 'sle:solubility', 'sle:pure', 'method:shgo', 'method:pseudo equilibrium']
+    return ['equal-activity', 'scale', 'top-chemical', 'history', 'history:use_cache', 'history:no-cache', 'history:T-decrease', 'sle:solute-only', 'sle:solubility', 'sle:pure', 'sle:gamma=ideal', 'sle:solid-in-feed', 'method:shgo', 'method:pseudo equilibrium']
 
 
-def thermo(ids):
-    k = tuple(ids)
-    if k not in _th: _th[k] = tmo.Thermo(tmo.Chemicals(list(ids), cache=True))
+def thermo(ids, gamma=None):
+    k = (tuple(ids), gamma)
+    if k not in _th:
+        kw = {'Gamma': tmo.equilibrium.IdealActivityCoefficients} if gamma == 'ideal' else {}
+        _th[k] = tmo.Thermo(tmo.Chemicals(list(ids), cache=True), **kw)
     return _th[k]
+
+
+def gen_sle(rng):
+    solute = rng.choice(['Glucose', 'Tetradecanol', 'AceticAcid'])
+    solv = rng.sample(['Water', 'Ethanol', 'Methanol', 'Octane'], rng.randrange(0, 4))
+    ids = [solute] + solv
+    flows = [round(10 ** rng.uniform(-2, 2), 4) for _ in ids]
+    r = rng.random()
+    if r < 0.35: sol = None
+    elif r < 0.6: sol = round(rng.random() * 0.6, 4)
+    else:
+        # around the solubility that is just enough to dissolve all of the solute (the boundary between 'solid remains' and 'all dissolved')
+        S = sum(flows[1:]); m = flows[0]
+        sol = round(min(0.999, m / (S + m) * rng.uniform(0.6, 1.6)), 6) if S else round(rng.random() * 0.6, 4)
+    return {'t': 'sle', 'ids': ids, 'flows': flows, 'T': round(rng.uniform(250, 450), 2), 'dist': rng.choice([0.0, 1.0, round(rng.random(), 3), round(rng.random(), 3)]),
+            'solubility': sol, 'prior': rng.random() < 0.4, 'gamma': rng.choice([None, None, 'ideal'])}
 
 
 def gen_case(rng):
     if rng.random() < 0.45:
+        return gen_sle(rng)
         solute = rng.choice(['Glucose', 'Tetradecanol', 'AceticAcid'])
         solv = rng.sample(['Water', 'Ethanol', 'Methanol', 'Octane'], rng.randrange(0, 4))
         ids = [solute] + solv
@@ -185,8 +204,10 @@ def run_lle(case, rec):
 
 
 def run_sle(case, rec):
-    ids = case['ids']; th = thermo(ids); tmo.settings.set_thermo(th)
+    ids = case['ids']; th = thermo(ids, case.get('gamma')); tmo.settings.set_thermo(th)
     solute = ids[0]; T = case['T']
+    if case.get('gamma'): rec.hit('sle:gamma=' + case['gamma'])
+    if case['dist'] > 0: rec.hit('sle:solid-in-feed')
     s = tmo.MultiStream(None, phases=('s', 'l'), T=T, thermo=th)
     s.imol['s', solute] = case['flows'][0] * case['dist']; s.imol['l', solute] = case['flows'][0] * (1 - case['dist'])
     for i, v in zip(ids[1:], case['flows'][1:]): s.imol['l', i] = v
@@ -246,3 +267,6 @@ def run(rec, rng, tier, shard, nshards):
         case = gen_case(rng)
         run_case(case, rec)
         if i % 41 == 0: rec.sample(case)
+    # the solid-liquid cases are cheap (no global optimiser): many more of them
+    for i in range(1500 if tier == 'quick' else 20000):
+        run_case(gen_sle(rng), rec)
